@@ -1133,7 +1133,7 @@ Token:
             // if there was a parse error in the argument then we've
             // probably been left in a weird place in the token stream,
             // so we'll bail out with a partial argument list.
-            p.recover(TokenCParen)
+            closeTok = p.recover(TokenCParen)
             break Token
         }
 
